@@ -1,7 +1,8 @@
 #!/venv/bin/python
 """For every 'fix:' commit of /repo: revert it alone in a scratch worktree and run the check(s) that own the finding; the check must
-report the violation again (a 'fixed' entry suppresses nothing).  usage: revert_audit.py  -> prints a table, writes /verif/seeded/revert_audit.json"""
-import json, os, re, subprocess, tempfile
+report the violation again (a 'fixed' entry suppresses nothing).  usage: revert_audit.py [FID ...]  -> prints a table, writes /verif/seeded/revert_audit.json"""
+import json, os, re, subprocess, sys, tempfile
+only = set(sys.argv[1:])
 kf = json.load(open("/verif/known_findings.json"))
 rows = []
 for line in kf["fixed"]:
@@ -9,6 +10,8 @@ for line in kf["fixed"]:
     if not m:
         continue
     pid, sha, fid = m.groups()
+    if only and fid not in only:
+        continue
     wt = tempfile.mkdtemp(prefix="rv_", dir="/tmp"); os.rmdir(wt)
     subprocess.run(["git", "-C", "/repo", "worktree", "add", "-q", "--detach", wt, "HEAD"], check=True)
     row = {"finding": fid, "property": pid, "commit": sha}
@@ -30,4 +33,8 @@ for line in kf["fixed"]:
         subprocess.run(["git", "-C", "/verif", "checkout", "--", "evidence"], capture_output=True)
     rows.append(row)
     print(fid, pid, sha, "revert applies" if row["revert_applies"] else "CONFLICT", "FIRES" if row.get("fires") else f"silent rc={row.get('rc')}", flush=True)
+if only and os.path.exists("/verif/seeded/revert_audit.json"):
+    old = json.load(open("/verif/seeded/revert_audit.json"))
+    new = {r["finding"]: r for r in rows}
+    rows = [new.pop(r["finding"], r) for r in old] + list(new.values())
 json.dump(rows, open("/verif/seeded/revert_audit.json", "w"), indent=1)
